@@ -7,6 +7,9 @@ props = [json.loads(l) for l in open(os.path.join(ROOT, 'properties.jsonl'))]
 
 # id -> (technique, level text, level note, design ref)
 CHECKS = {
+ 'C18': ('runtime round-trip monitors on the states of generated histories: multiproof encode/decode with hash-by-hash proof comparison and an independent minimal-size oracle; outline ID/Missing/codec/Complete over all subsets of omitted transactions',
+         'Accepted v2 blocks and synthetic transaction sets over all live store elements (every parent kind, storage-proof chain indices, ephemeral parents, duplicate leaves, several tree heights) are round-tripped through the multiproof form: every proof restored bit for bit, block ID / commitment / ValidateBlock verdict unchanged, transmitted hashes equal the minimal multiproof computed from leaf positions; outlines for every subset of omitted transactions (exhaustive for blocks of <= 10 transactions) keep the block ID, survive their codec, complete exactly from shuffled superset pools and report exactly the withheld hashes.',
+         'Trusted: proofs come from the client store at one state; the minimal-multiproof size model.', '§5 C18'),
  'C09': ('runtime monitors: deep-fingerprint purity monitor around every validation/application entry point, provenance differential (decoded/multiproof/DeepCopy/JSON copies), stepwise-vs-blockwise comparison, alias walker + scribble test for copy operations, Go race detector with overlap gauge over shared inputs',
          'For every accepted block of generated histories and an invalid sibling: inputs are fingerprinted (incl. proofs and unexported fields) before/after ~15 entry points; the same block obtained five ways must give the same verdict, byte-identical state and identical update contents; transaction-by-transaction validation must agree with ValidateBlock; element Copy() and V2Transaction.DeepCopy() results must share no mutable memory with the original (region intersection + write-through test); under -race 2/8/32 goroutines run the pipeline on the same objects (overlap measured), every result compared with the sequential one.',
          'Trusted: the reflection fingerprint/alias walkers; the race detector only judges accesses that occur in the run.', '§5 C09'),
